@@ -51,8 +51,8 @@ def count_leaf():
     """right operand of a shift: a small count, spelled as literal, symbol or sum"""
     lit = st.integers(-8, 40).map(lambda v: ("num", v))
     nonneg = st.integers(0, 40).map(lambda v: ("num", v))
-    return st.one_of(nonneg, nonneg, nonneg, nonneg, nonneg, lit, st.sampled_from([("sym", "k4"), ("sym", "k4"), ("sym", "k5")]),
-                     st.tuples(nonneg, nonneg).map(lambda t: ("bin", "+", t[0], ("bin", "-", t[1], t[1]))))
+    return st.one_of(nonneg, nonneg, nonneg, lit, st.sampled_from([("sym", "k4"), ("sym", "k4"), ("sym", "k5")]),
+                     st.tuples(nonneg, nonneg).map(lambda t: ("bin", "+", t[0], ("bin", "-", t[1], t[1]))), count_leaf_nonneg(), count_leaf_nonneg())
 
 
 def count_leaf_nonneg():
@@ -65,7 +65,8 @@ def count_leaf_nonneg():
                      st.tuples(nonneg, pos).map(lambda t: ("bin", "%", t[0], t[1])),
                      st.tuples(nonneg, pos).map(lambda t: ("bin", "/", t[0], t[1])),
                      st.tuples(tiny, tiny).map(lambda t: ("bin", "*", t[0], t[1])),
-                     st.tuples(nonneg, tiny).map(lambda t: ("bin", "-", ("bin", "+", t[0], t[1]), t[1])))
+                     st.tuples(nonneg, tiny).map(lambda t: ("bin", "-", ("bin", "+", t[0], t[1]), t[1])),
+                     st.tuples(st.integers(0, 30), st.integers(0, 9)).map(lambda t: ("bin", "-", ("num", t[0] + t[1]), ("num", t[1]))))
 
 
 @st.composite
